@@ -42,7 +42,8 @@ LEVEL_TEXT = ("Lean 4 theorems about executable models of the four solvers and o
 LEVEL_NOTE = ("Theorems are about exact arithmetic; IEEE rounding, libm and the convergence of the Golub-Reinsch SVD "
               "iteration are not proved (SVD factorisation enters as a per-run certificate). The LocalNetwork entry point is "
               "covered from the assembled system on (Props/C01/NetFacade.lean, stream netfacade on real LocalNetwork "
-              "objects): the assembly itself (linearisation, revision, min_x list) is C05/C14/C08's, and its outputs "
+              "objects; the cofactor accessors qxx/qbb/weight_obs/stdev_obs/wcoef_res are in the model and the stream, their "
+              "theorems are C03_net_cofactors, C02_same_net, C08_net_datum, Props/C09Net.lean): the assembly itself (linearisation, revision, min_x list) is C05/C14/C08's, and its outputs "
               "(distinct in-range columns per row, clusters partitioning the rows) enter the C01_net theorems as "
               "hypotheses; the repeat loop of vyrovnani_ that removes points with huge covariances is C20's.")
 TECHNIQUE = "Lean 4 proof (ordered-field algebra, induction over the factorisation loops) + model/implementation correspondence"
